@@ -590,7 +590,9 @@ def is_registered(
             return True
 
     if type in pretty_dispatch.registry:
-        return True
+        # singledispatch keeps the base printer under ``object``:
+        # that entry is not a registration.
+        return pretty_dispatch.registry[type] is not _BASE_DISPATCH
 
     if not check_superclasses:
         return False
